@@ -29,7 +29,7 @@ func init() { register(c16{}) }
 
 func (c16) ID() string { return "C16" }
 func (c16) Cases(t fw.Tier) int {
-	return tierN(t, 8000, 300000)
+	return tierN(t, 30000, 800000)
 }
 func (c16) Processes(t fw.Tier) int { return 2 }
 func (c16) Env(t fw.Tier, batch int) []string {
@@ -582,21 +582,17 @@ func (c16) RunKnown(id string) (bool, string, error) {
 		return false, "", fmt.Errorf("unknown known-finding id %s", id)
 	}
 	type A struct {
-		X int `json:"x"`
+		X int `json:"ax"`
 	}
-	type B struct {
-		X int `json:"x"`
-	}
-	type T struct {
+	type T struct { // T.X shadows A.X in Go, but the JSON names differ: encoding/json emits both
 		A
-		B
-		Y int `json:"y"`
+		X string `json:"tx"`
 	}
 	s, err := jsonschema.ForType(reflect.TypeFor[T](), nil)
 	if err != nil {
 		return false, "", err
 	}
-	data, _ := json.Marshal(&T{A: A{1}, B: B{2}, Y: 3})
+	data, _ := json.Marshal(&T{A: A{1}, X: "s"})
 	v, _ := jsonorder.Decode(data)
 	keys := v.(*jsonorder.Object).Keys
 	if strings.Join(keys, ",") != strings.Join(s.PropertyOrder, ",") {
